@@ -67,6 +67,26 @@ class ItemsOnly:
         return f"ItemsOnly({self._items!r})"
 
 
+class GetOnly:
+    """Has ``get`` like a mapping -- and nothing else of one."""
+
+    def get(self, key, default=None):
+        return default
+
+    def __repr__(self):
+        return "GetOnly()"
+
+
+class GetItemOnly:
+    """Subscriptable, every key missing; neither ``get`` nor ``__contains__`` nor ``keys``."""
+
+    def __getitem__(self, key):
+        raise KeyError(key)
+
+    def __repr__(self):
+        return "GetItemOnly()"
+
+
 class StrSub(str):
     __slots__ = ()
 
@@ -220,6 +240,18 @@ def build(v, env: Env | None = None):  # noqa: C901, PLR0911, PLR0912
         return DictSub(_pairs(v["v"], env))
     if tag == "opaque":
         return Opaque()
+    if tag == "getonly":
+        return GetOnly()
+    if tag == "getitemonly":
+        return GetItemOnly()
+    if tag == "rematch":      # subscriptable by group name, IndexError for an unknown one, no ``in``
+        import re as _re  # noqa: PLC0415
+        return _re.match("(?P<a>x)(?P<m>y)?", "x")
+    if tag == "sqlrow":       # subscriptable by column name, IndexError for an unknown one, iterates over VALUES
+        import sqlite3  # noqa: PLC0415
+        con = sqlite3.connect(":memory:")
+        con.row_factory = sqlite3.Row
+        return con.execute("select 1 as a, 2 as m").fetchone()
     if tag == "range":
         return range(v["n"])
     if tag == "type":
